@@ -39,6 +39,9 @@ def gen_value(rng, kind):
     return rng.choice(["a b", "+1", "1", "p/q", "pq", "é", "..", "a,b", "x;y", "q'r"])
 
 
+PARAM_REFS = False      # C11 only: a parameter whose values mention another parameter's token
+
+
 def gen_params(rng, adversarial):
     n = rng.choice([0, 0, 1, 1, 2, 2, 3, 4])
     if n == 0:
@@ -72,6 +75,12 @@ def gen_params(rng, adversarial):
         # (the schema admits only string labels and no `name`; label lists and
         # custom names are reachable through a custom generator, see pgen_variant)
         params[k] = {"values": vals, "label": label}
+    if PARAM_REFS and n >= 2 and rng.random() < 0.35:
+        # outside what C09 calls documented, but an expansion all the same: which of the two tokens is
+        # replaced first is the code's choice - it has to be the same choice every time
+        a, b = rng.sample(names, 2)
+        params[a] = {"values": ["%s-$(%s)" % (rng.choice(["coarse", "fine", "x"]), b) + ("" if i == 0 else str(i))
+                                for i in range(rows)], "label": "%s.%%%%" % a}
     if not long_labels and rng.random() < 0.12:
         # one parameter whose labels run to 70-130 characters (a long flag string or path as value)
         k = rng.choice(names)
